@@ -68,6 +68,7 @@ func (H) Gen(prop string, rng *rand.Rand, tier string) *core.Plan {
 			p.Ops = append(p.Ops, core.Op{K: "burst", A: int64(2 + rng.Intn(3))})
 		}
 	}
+	p.Cfg["maporder"] = rng.Intn(2) // tape-chosen iteration order of Go maps in the code under test
 	return p
 }
 
